@@ -221,6 +221,14 @@ CORPUS = {
         msg(2, "reg", req=1, uri="p.q", opts=D(invoke=S("roundrobin"), forward_timeout=True)),
         call(3, 1, "p.q", opts=D(timeout=I(500))), call(3, 2, "p.q", opts=D(timeout=I(500))),
         tick(499), tick(1), tick(1000)]),
+    # harness correction (no router defect): a realm added at virtual time T starts at the router's clock
+    ("C11", "realm-added-later-keeps-router-clock"): dict(
+        realms=[{"hist": [{"topic": "a", "match": "prefix", "limit": 3}]}, {"hist": [{"topic": "a", "match": "prefix", "limit": 3}]}],
+        ops=[join(0, authid="o0"), join(1, authid="o1", realm=1), tick(60000),
+             {"k": "rmrealm", "r": 1, "s": 0}, {"k": "addrealm", "r": 1, "s": 0},
+             join(2, authid="x", realm=1), msg(2, "pub", realm=1, req=1, uri="a.b", args=L(I(1))),
+             msg(2, "call", realm=1, req=2, uri="wamp.subscription.get_events", args=L(I(1)), kwargs=D(from_time=S("60000")), opts=D()),
+             msg(2, "call", realm=1, req=3, uri="wamp.subscription.get_events", args=L(I(1)), kwargs=D(before_time=S("60000")), opts=D())]),
     ("C18", "kill-all-on-leave"): dict(realms=[{"kill": True}], ops=OBS + [
         join(1, authid="a"), join(2, authid="b"), sub(0, 2, "wamp.session.on_leave"),
         call(0, 3, "wamp.session.kill_all", kwargs=D(reason=S("app.done"), message=S("bye")))]),
